@@ -112,7 +112,10 @@ def _task(t, ind=""):
             a += " { alternative " + ", ".join(t["alt"]) + " }"
         out.append(f"{i2}allocate {a}")
     if t.get("deps"):
-        out.append(f"{i2}depends " + ", ".join(_dep(d) for d in t["deps"]))
+        if t.get("depsplit"):   # one 'depends' statement per predecessor
+            out += [f"{i2}depends " + _dep(d) for d in t["deps"]]
+        else:
+            out.append(f"{i2}depends " + ", ".join(_dep(d) for d in t["deps"]))
     if t.get("prec"):
         out.append(f"{i2}precedes " + ", ".join(_dep(d) for d in t["prec"]))
     out += _limits(t.get("limits"), i2)
